@@ -78,6 +78,10 @@ type Scenario struct {
 	Cache   bool     `json:"cache"`
 	Repeat  int      `json:"repeat"` // mode C: how often each burst is repeated
 	Epochs  [][]Task `json:"epochs"`
+	// JumpS is the clock advance before each epoch, in seconds (an hour's
+	// rollover makes the statistics flush write a unit and start a new one, a
+	// day's makes the query log rotate, any makes timed pauses expire).
+	JumpS []int `json:"jump_s,omitempty"`
 	// Mode D: one scheduler seed per epoch and the preemption probability.
 	SchedSeeds []uint64 `json:"sched_seeds,omitempty"`
 	SwitchPct  int      `json:"switch_pct,omitempty"`
@@ -187,7 +191,35 @@ func Gen(t *rapid.T, tier string) any {
 		sc.SwitchPct = rapid.SampledFrom([]int{5, 15, 30, 60}).Draw(t, "switch_pct")
 	}
 	for i := 0; i < nEpochs; i++ {
-		sc.Epochs = append(sc.Epochs, genEpoch(t, mode, maxTasks))
+		ep := genEpoch(t, mode, maxTasks)
+		jump := rapid.SampledFrom([]int{0, 0, 0, 7, 3600, 3601, 86400}).Draw(t, "jump_s")
+		if jump >= 3600 {
+			// What the periodic loops do first thing after the hour (day) has
+			// rolled over, and what an open dashboard keeps doing.
+			at := func() int {
+				if mode != "B" {
+					return 1000
+				}
+				for {
+					a := rapid.IntRange(1, 40).Draw(t, "at_extra")*100 + 50
+					dup := false
+					for _, tk := range ep {
+						dup = dup || tk.AtUs == a
+					}
+					if !dup {
+						return a
+					}
+				}
+			}
+			ep = append(ep, Task{Kind: "w_stats_flush", AtUs: at()})
+			ep = append(ep, Task{Kind: "stats_get", AtUs: at()})
+			if jump >= 86400 {
+				ep = append(ep, Task{Kind: "w_qlog_rotate", AtUs: at()})
+				ep = append(ep, Task{Kind: "qlog_get", AtUs: at()})
+			}
+		}
+		sc.Epochs = append(sc.Epochs, ep)
+		sc.JumpS = append(sc.JumpS, jump)
 		if mode == "D" {
 			sc.SchedSeeds = append(sc.SchedSeeds, rapid.Uint64().Draw(t, "sched_seed"))
 		}
@@ -853,6 +885,18 @@ func Run(t *testing.T, scAny any, c *kernel.Ctx) error {
 				rep = sc.Repeat
 			}
 			for k := 0; k < rep; k++ {
+				if k == 0 && i < len(sc.JumpS) && sc.JumpS[i] > 0 {
+					d := time.Duration(sc.JumpS[i]) * time.Second
+					time.Sleep(d)
+					kernel.Wait()
+					c.SimTime += d
+					if d >= time.Hour {
+						c.Fault("clock_jump_hour")
+					}
+					if err := r.verdict(i, nil); err != nil {
+						return err
+					}
+				}
 				c.Eventf("epoch %d.%d mode=%s n=%d", i, k, sc.Mode, len(tasks))
 				if err := r.epoch(i, tasks); err != nil {
 					return err
@@ -906,6 +950,6 @@ var Prop = &kernel.Property{
 	Real:        []string{"internal/dnsforward + dnsproxy request path", "internal/filtering (engines, list refresh, rewrites, safe search, blocked services, all HTTP handlers)", "internal/client.Storage", "internal/querylog (memory + file, handlers, flush and rotation bodies)", "internal/stats + bbolt (handlers, flush body)", "internal/dhcpd v4 (packet handler, static-lease handlers, leases.json)", "home callbacks findMultiple / shouldCountClient"},
 	Stub:        []string{"upstream resolver, list server, client sockets, DHCP socket", "loop drivers of statistics flush / query-log rotation (bodies real, run as tasks)", "home's own HTTP handlers for clients (client.Storage methods are called directly)", "listeners"},
 	Assumptions: []string{"the Go race detector has no false positives: a report whose two access stacks contain an AdGuard Home frame is a violation; reports confined to third-party frames are counted, not reported", "mode B orders tasks through the simulated clock only (time.Sleep creates no happens-before edge), so lock release->acquire edges always point along the seeded order; permuted orders are part of the sampled space", "mode C bursts are not exactly repeatable: a replay re-runs the burst and may not reproduce"},
-	FaultKinds:  []string{"epoch_B", "epoch_C"},
+	FaultKinds:  []string{"epoch_B", "epoch_C", "epoch_D", "clock_jump_hour"},
 	ProbeNames:  []string{"task_query", "task_admin", "task_worker", "third_party_race_report", "race_report_during_setup"},
 }
